@@ -468,9 +468,14 @@ class Gen:
             if c == 4:
                 return "character(len = %s, kind = %s)" % (self.small_int(), r.pick(["1", "ck"]))
             if c == 5:
-                return r.pick(["character(kind = ck)", "character(%s, ck)" % r.pick(["10", "2 * (n + 1)", "len(msg)"]),
-                               "character(2 * (n + 1), kind = ck)", "character(kind = ck, len = %s)" % r.pick(["5", "2 * (n + 1)", "f(3)"]),
-                               "character(kind = kind('a'), len = 3)"])
+                forms = ["character(kind = ck)", "character({+len = }%s, {+kind = }ck)" % r.pick(["10", "2 * (n + 1)", "len(msg)"]),
+                         "character({+len = }2 * (n + 1), kind = ck)"]
+                if not self.o.variants:
+                    # KIND first is printed LEN first by fparser (a re-ordering the token check C02 would rightly
+                    # flag as undocumented), so these forms are only used where trees/texts are compared
+                    forms += ["character(kind = ck, len = %s)" % r.pick(["5", "2 * (n + 1)", "f(3)"]),
+                              "character(kind = kind('a'), len = 3)"]
+                return r.pick(forms)
             return "character(len = 5)"
         if typ == "double precision":
             return "double{~}precision"
@@ -919,6 +924,16 @@ class Gen:
         return self.assign_stmt()
 
     # ------------------------------------------------------------- constructs
+    def do_term_action(self, ctx):
+        """Terminal statement of a non-block DO: any action statement except the branching ones (R838/C824)."""
+        banned = ("goto", "computed_goto", "arith_if", "stop", "error_stop", "return", "cycle", "exit", "continue")
+        for _ in range(20):
+            st = self.simple_exec(ctx)
+            if st.kind not in banned and st.label is None and not (st.kind == "if_stmt" and any(
+                    b in st.tmpl for b in (" stop", " return", " cycle", " exit", "go to", "goto"))):
+                return st
+        return self.assign_stmt()
+
     def cname(self, ctx):
         """Optional construct name (unique among enclosing constructs)."""
         if self.r.chance(25):
@@ -1010,8 +1025,14 @@ class Gen:
             lab = ctx["new_label"]()
             v, v2 = "i", "j"
             lsub = self._sub(sub, loop=True, loop_name=None)
+            if r.chance(30):
+                shared_term = self.do_term_action(lsub)      # non-block form: shared terminal action statement
+                shared_term.label = lab
+                shared_term.removable = False
+            else:
+                shared_term = S("continue", "continue", label=lab)
             inner = Block("do_label", S("do %s %s = 1, %s" % (lab, v2, self.small_int()), "do_label"),
-                          S("continue", "continue", label=lab), [(None, self.body(lsub, d1 + 1, lo=1))])
+                          shared_term, [(None, self.body(lsub, d1 + 1, lo=1))])
             pre = [] if self.avoid("no_stmt_between_shared_dos") else (
                 [self.simple_exec(lsub)] if r.chance(30) else [])
             b = Block("do_shared", S("do %s %s = 1, %s" % (lab, v, self.small_int()), "do_label"), None,
@@ -1022,7 +1043,7 @@ class Gen:
             lab = ctx["new_label"]()
             v = self.name(INT_NAMES)
             lsub = self._sub(sub, loop=True, loop_name=None)
-            term = self.assign_stmt()
+            term = self.do_term_action(lsub)
             term.label = lab
             term.removable = False
             b = Block("do_nonblock", S("do %s %s = 1, %s" % (lab, v, self.int_expr(0)), "do_label"), term,
